@@ -364,8 +364,9 @@ def ob_release(k, released_before, cap=None, light=False, real_kernel=False, pen
             ctx.witness('release of %d batch(es) with slashing' % k, st, [arrived < expected_b + expected_s], W.mv)
             ctx.witness('release of %d batch(es) without slashing' % k, st, [no_slash, expected_b + expected_s > 0], W.mv)
         ctx.need_witness('Ok path', nok > 0)
-        ctx.expect_witness('slashing region', 'with slashing')
-        ctx.expect_witness('no-slashing region', 'without slashing')
+        if k >= 1:
+            ctx.expect_witness('slashing region', 'with slashing')
+            ctx.expect_witness('no-slashing region', 'without slashing')
         ctx.ob.bounds = {'batches': k, 'released_before': released_before}
     return ob
 
@@ -494,7 +495,8 @@ def ob_twice(ctx):
 OBLIGATIONS = [('kernel_from_subtraction', ob_kernel_from_subtraction), ('kernel_uint256_mul_decimal256', ob_kernel_mul),
                ('kernel_new_withdraw_rate', ob_kernel_rate),
                ('release_k1', ob_release(1, 0, real_kernel=True)), ('release_k1_old1', ob_release(1, 1, real_kernel=True, real_sub=True)),
-               ('release_k1_immature', ob_release(1, 0, real_kernel=True, pending=True, immature=True)), ('release_k2', ob_release(2, 0, light=True)),
+               ('release_k1_immature', ob_release(1, 0, real_kernel=True, pending=True, immature=True)),
+               ('withdraw_k0_old1', ob_release(0, 1, real_kernel=True)), ('release_k2', ob_release(2, 0, light=True)),
                ('release_k3', ob_release(3, 0, light=True)), ('order_independence', ob_order_frame), ('paid_once', ob_twice)]
 
 
